@@ -75,57 +75,46 @@ Theorem C18_username_shape :
 Proof. exact username_shape. Qed.
 Print Assumptions C18_username_shape.
 
-(* Uniqueness, as far as it holds.  Full statement wanted by the property:
-     uuid1 <> uuid2 -> user_name … uuid1 <> user_name … uuid2.
-   It is false (C18_username_unique_refuted): the truncation to 80 characters cuts the
-   uuid.  Proved instead:
-   (1) any two usernames, of any two rows, that were not truncated differ when the uuids do; *)
+(* Uniqueness.  The full statement "uuid1 <> uuid2 -> user_name … uuid1 <> user_name … uuid2"
+   was false before the repair of finding C18-K1 (the truncation to 80 characters cut the uuid,
+   down to nothing: C18_ex_username_k1_regression below is the old counterexample).  The
+   repaired code cuts the names first and keeps at least 16 characters of the uuid.  Proved:
+   (1) any two usernames, of any two rows, in which names and uuid fit completely
+       (|first| + 1 + |last| + 1 + 36 <= 79 - |host|) differ when the uuids do; *)
 Theorem C18_username_unique_partial :
   forall m1 lv1 host1 ff1 fl1 uuid1 m2 lv2 host2 ff2 fl2 uuid2,
     no_at ff1 = true -> no_at fl1 = true -> no_at uuid1 = true ->
     no_at ff2 = true -> no_at fl2 = true -> no_at uuid2 = true ->
     length uuid1 = 36%nat -> length uuid2 = 36%nat ->
-    (length (fst (used_names m1 lv1 ff1 fl1)) + length (snd (used_names m1 lv1 ff1 fl1)) + 38
-       <= 79 - length host1)%nat ->
-    (length (fst (used_names m2 lv2 ff2 fl2)) + length (snd (used_names m2 lv2 ff2 fl2)) + 38
-       <= 79 - length host2)%nat ->
+    (length (names_of m1 lv1 ff1 fl1) + 37 <= 79 - length host1)%nat ->
+    (length (names_of m2 lv2 ff2 fl2) + 37 <= 79 - length host2)%nat ->
     uuid1 <> uuid2 ->
     user_name_of m1 lv1 host1 ff1 fl1 uuid1 <> user_name_of m2 lv2 host2 ff2 fl2 uuid2.
 Proof. exact username_unique_partial. Qed.
 Print Assumptions C18_username_unique_partial.
 
-(* (2) for one row (same names, same host) and any amount of truncation: the usernames differ
-   as soon as the k uuid characters that survive differ, k = 79 - |host| - |first| - |last| - 2 *)
+(* (2) for one row (same names, same host), whatever the lengths of the names: if the host name
+   has at most 62 characters, the usernames differ as soon as the first 16 characters of the
+   uuids differ.  (What is still missing from the full statement: uuids that agree on their
+   first 16 characters and names too long for the rest — C18_ex_username_residue.) *)
 Theorem C18_username_unique_prefix :
   forall m lv host ff fl uuid1 uuid2,
-    (length host <= 79)%nat ->
-    let names := (length (fst (used_names m lv ff fl)) + length (snd (used_names m lv ff fl)) + 2)%nat in
-    let k := (79 - length host - names)%nat in
-    firstn k uuid1 <> firstn k uuid2 ->
+    (length host <= 62)%nat ->
+    firstn 16 uuid1 <> firstn 16 uuid2 ->
     user_name_of m lv host ff fl uuid1 <> user_name_of m lv host ff fl uuid2.
 Proof. exact username_unique_prefix. Qed.
 Print Assumptions C18_username_unique_prefix.
 
-(* the counterexample (names and host produced by Faker for locale en_TH): k = 0 *)
-Theorem C18_username_unique_refuted :
-  exists matching lv host ff fl uuid1 uuid2,
-    (length host <= 79)%nat /\ no_at host = true /\
-    length uuid1 = 36%nat /\ length uuid2 = 36%nat /\ no_at uuid1 = true /\ no_at uuid2 = true /\
-    uuid1 <> uuid2 /\
-    user_name_of matching lv host ff fl uuid1 = user_name_of matching lv host ff fl uuid2.
-Proof. exact username_unique_refuted. Qed.
-Print Assumptions C18_username_unique_refuted.
-
 (* Name lookup.  [fa]/[sa] = attribute names of the Faker object / of FakeNames that
    obj_to_func_list keeps, [val] = the object each attribute is bound to.  Two spellings with
    the same canonical form (lower case, underscores removed) that are both found denote the
-   same object — under the three stated consistency conditions on the attribute lists, which
-   the harness evaluates (Fake.hyps_hold) on the real lists of every locale. *)
+   same object — provided neither attribute list binds two different objects to one canonical
+   form, which the harness evaluates (Fake.hyps_hold) on the real lists of every locale.
+   (Before the repair of finding C18-K2 a third condition was needed, false for ko_KR.) *)
 Theorem C18_lookup_spelling_invariant :
   forall (fa sa : list string) (V : Type) (val : prov -> V),
     (forall n1 n2, In n1 fa -> In n2 fa -> canon n1 = canon n2 -> val (Fk, n1) = val (Fk, n2)) ->
     (forall n1 n2, In n1 sa -> In n2 sa -> canon n1 = canon n2 -> val (Sf, n1) = val (Sf, n2)) ->
-    (forall nf ns, In nf fa -> In ns sa -> canon nf = canon ns -> In (lower nf) (sf_keys sa)) ->
     forall q1 q2 p1 p2,
       canon q1 = canon q2 ->
       lookup (build fa sa) q1 = Some p1 -> lookup (build fa sa) q2 = Some p2 ->
@@ -142,12 +131,12 @@ Theorem C18_lookup_spelling_invariant_checked :
 Proof. exact hyps_hold_spelling_invariant. Qed.
 Print Assumptions C18_lookup_spelling_invariant_checked.
 
-(* Snowfakery's names win over Faker's (no hypothesis): a query that is a case variant of a
-   FakeNames attribute, with all or none of its underscores, is answered by FakeNames *)
+(* Snowfakery's names win over Faker's (no hypothesis): a query that has the canonical form of
+   a FakeNames attribute and is accepted at all is answered by FakeNames *)
 Theorem C18_snowfakery_names_win :
-  forall (fa sa : list string) q n,
-    In n sa -> (lower q = lower n \/ lower q = canon n) ->
-    exists n', lookup (build fa sa) q = Some (Sf, n') /\ In n' sa /\ canon n' = canon n.
+  forall (fa sa : list string) q n p,
+    In n sa -> canon q = canon n -> lookup (build fa sa) q = Some p ->
+    exists n', p = (Sf, n') /\ In n' sa /\ canon n' = canon n.
 Proof. exact snowfakery_names_win. Qed.
 Print Assumptions C18_snowfakery_names_win.
 
@@ -205,10 +194,24 @@ Proof. vm_compute. repeat split; reflexivity. Qed.
 Example C18_ex_username :
   user_name_of true ex_lv (of_string "web-01.smith.com") [] [] k1_uuid1
   = of_string "J.OBrien_ba2eaeb9-5c8e-474a-9d9b-d5ad0f343e7a@web-01.smith.com"
-  /\ length (user_name_of true k1_lv k1_host [] [] k1_uuid1) = 80%nat
-  /\ user_name_of true k1_lv k1_host [] [] k1_uuid1
-     = of_string "Pattatomporn.Lertsattayanusak_@desktop-68.kongchayasukawut-lertsattayanusak.info".
+  /\ length (user_name_of true k1_lv k1_host [] [] k1_uuid1) = 80%nat.
 Proof. vm_compute. repeat split; reflexivity. Qed.
+
+(* regression for finding C18-K1 (names and host as Faker produced them for en_TH): the two
+   uuids used to give the same username "Pattatomporn.Lertsattayanusak_@desktop-68…" *)
+Example C18_ex_username_k1_regression :
+  user_name_of true k1_lv k1_host [] [] k1_uuid1 <> user_name_of true k1_lv k1_host [] [] k1_uuid2
+  /\ user_name_of true k1_lv k1_host [] [] k1_uuid1
+     = of_string "Pattatomporn._ba2eaeb9-5c8e-47@desktop-68.kongchayasukawut-lertsattayanusak.info".
+Proof. exact username_k1_regression. Qed.
+
+(* the residue of the full uniqueness statement *)
+Example C18_ex_username_residue :
+  exists matching lv host ff fl uuid1 uuid2,
+    (length host <= 62)%nat /\ length uuid1 = 36%nat /\ length uuid2 = 36%nat /\
+    uuid1 <> uuid2 /\ firstn 16 uuid1 = firstn 16 uuid2 /\
+    user_name_of matching lv host ff fl uuid1 = user_name_of matching lv host ff fl uuid2.
+Proof. exact username_unique_residue. Qed.
 
 Definition ex_fa := ["email"; "first_name"; "postcode"; "user_name"; "safe_email"].
 Definition ex_sa := ["date_time"; "datetime"; "email"; "postalcode"; "user_name"].
@@ -224,8 +227,10 @@ Example C18_ex_lookup :
   /\ lookup (build ex_fa ex_sa) "Date_Time" = Some (Sf, "date_time")
   /\ lookup (build ex_fa ex_sa) "DateTime" = Some (Sf, "datetime")
   /\ lookup (build ex_fa ex_sa) "first_nam_e" = None
-  (* the ko_KR situation: Faker's postal_code next to Snowfakery's postalcode *)
-  /\ hyps_hold ("postal_code" :: ex_fa) ex_sa ex_sigs = false
-  /\ lookup (build ("postal_code" :: ex_fa) ex_sa) "postal_code" = Some (Fk, "postal_code")
+  (* the ko_KR situation (finding C18-K2, repaired): Faker's postal_code next to Snowfakery's
+     postalcode — every spelling is answered by Snowfakery *)
+  /\ hyps_hold ("postal_code" :: ex_fa) ex_sa ex_sigs = true
+  /\ lookup (build ("postal_code" :: ex_fa) ex_sa) "postal_code" = Some (Sf, "postalcode")
+  /\ lookup (build ("postal_code" :: ex_fa) ex_sa) "Postal_Code" = Some (Sf, "postalcode")
   /\ lookup (build ("postal_code" :: ex_fa) ex_sa) "PostalCode" = Some (Sf, "postalcode").
 Proof. vm_compute. repeat split; reflexivity. Qed.
